@@ -278,8 +278,9 @@ def max_bottleneck_path(G: nx.DiGraph, flow_attr) -> tuple:
                 if maxBottleneckSink is None or B[v] > B[maxBottleneckSink]:
                     maxBottleneckSink = v
 
-    # If no s-t flow exists in the network
-    if B[maxBottleneckSink] == 0:
+    # If no s-t flow exists in the network (also when no node has both an in-edge and
+    # no out-edge, e.g. a graph without edges)
+    if maxBottleneckSink is None or B[maxBottleneckSink] == 0:
         return None, None
 
     # Recovering the path of maximum bottleneck
